@@ -13,6 +13,8 @@ type GenOpts struct {
 	Partial  bool // allow grids that are not multiples of the work-group size
 	// Comm biases towards communication: at least one LDS exchange, several wavefronts per group
 	Comm bool
+	// UniqueStores: every (output buffer, slot) is stored to by at most one op
+	UniqueStores bool
 }
 
 var interestingImm = []uint32{0, 1, 2, 3, 5, 31, 32, 33, 63, 64, 100, 255, 256, 0xffff, 0x10000, 0xffffff, 0x1000000,
@@ -72,7 +74,11 @@ func GenGeometry(t *rapid.T, o GenOpts, full bool) Geometry {
 	items := 1
 	for d := 0; d < dims; d++ {
 		w := int(g.WG[d])
-		maxGroups := o.MaxItems / (items * w)
+		rest := 1
+		for e := d + 1; e < dims; e++ {
+			rest *= int(g.WG[e])
+		}
+		maxGroups := o.MaxItems / (items * w * rest)
 		if maxGroups < 1 {
 			maxGroups = 1
 		}
@@ -96,7 +102,7 @@ func GenGeometry(t *rapid.T, o GenOpts, full bool) Geometry {
 func GenProgram(t *rapid.T, o GenOpts) *Program {
 	p := &Program{}
 	wantLDS := o.LDS && (o.Comm || rapid.IntRange(0, 2).Draw(t, "wantlds") == 0)
-	p.Geo = GenGeometry(t, o, wantLDS)
+	p.Geo = GenGeometry(t, o, wantLDS || o.Exit)
 	p.InLog2 = [2]int{rapid.IntRange(4, 10).Draw(t, "in0"), rapid.IntRange(4, 10).Draw(t, "in1")}
 	p.Slots = rapid.IntRange(1, 3).Draw(t, "slots")
 	p.DataSeed = rapid.Uint32().Draw(t, "dataseed")
@@ -124,6 +130,7 @@ func GenProgram(t *rapid.T, o GenOpts) *Program {
 		return rapid.IntRange(0, nv-1).Draw(t, label)
 	}
 	nlds, exited := 0, false
+	usedStore := map[[2]int]bool{}
 	wgItems := p.Geo.WGItems()
 	kinds := []string{"const", "bin", "bin", "bin", "sel", "load", "load", "loop", "if", "ifload", "ifstore", "store", "store"}
 	if wantLDS {
@@ -220,13 +227,33 @@ func GenProgram(t *rapid.T, o GenOpts) *Program {
 			op.Imm = m<<8 | v
 			exited = true
 		}
+		if o.UniqueStores && (op.Kind == "store" || op.Kind == "ifstore") {
+			if usedStore[[2]int{op.K, op.Slot}] {
+				found := false
+				for k := 0; k < 2 && !found; k++ {
+					for sl := 0; sl < p.Slots && !found; sl++ {
+						if !usedStore[[2]int{k, sl}] {
+							op.K, op.Slot, found = k, sl, true
+						}
+					}
+				}
+				if !found {
+					op = Op{Kind: "const", Imm: genImm(t)}
+				}
+			}
+			if op.Kind != "const" {
+				usedStore[[2]int{op.K, op.Slot}] = true
+			}
+		}
 		p.Ops = append(p.Ops, op)
 		if producesValue(op.Kind) {
 			nv++
 		}
 	}
 	// always leave a trace of the last value
-	p.Ops = append(p.Ops, Op{Kind: "store", A: nv - 1, K: 0, Slot: 0})
+	if !o.UniqueStores || !usedStore[[2]int{0, 0}] {
+		p.Ops = append(p.Ops, Op{Kind: "store", A: nv - 1, K: 0, Slot: 0})
+	}
 	return p
 }
 
